@@ -262,9 +262,12 @@ int main(int argc, char** argv) {
           }
           if (r < 0 || done < b[k].len) break;
         }
-        if (cap > 0 && tot == 0 && r == 0) {  /* nothing to transfer: still one call so that EBADF etc. show */
-          ssize_t x = is_read ? (off < 0 ? read(fd, mem, 0) : pread(fd, mem, 0, off)) : (off < 0 ? write(fd, mem, 0) : pwrite(fd, mem, 0, off));
-          if (x < 0) r = -errno;
+        if (cap > 0 && tot == 0 && r == 0) {  /* nothing transferred: the vectored call itself, so that EBADF etc. show */
+          struct iovec* v = calloc(cap, sizeof(*v)); int nv = cap > IOV_MAX ? IOV_MAX : cap; ssize_t x;
+          for (k = 0; k < nv; k++) { v[k].iov_base = b[k].base; v[k].iov_len = b[k].len; }
+          x = is_read ? (off < 0 ? readv(fd, v, nv) : preadv(fd, v, nv, off)) : (off < 0 ? writev(fd, v, nv) : pwritev(fd, v, nv, off));
+          if (x < 0) r = -errno; else tot = x;
+          free(v);
         }
         if (r == 0 || tot > 0) r = tot;
       } else {
